@@ -180,6 +180,18 @@ func c20Sequence(ev *vlib.Evidence, idx int) {
 		case k < 8 && running: // a keep-alive fails: the loop ends with the error
 			failUpdateAtV.Store(int64(sp.numUpdates() + 1))
 			pending = append(pending, "err")
+			if r.Intn(3) == 0 {
+				// nobody collects the outcome: the loop must end anyway and the agent must be startable again
+				if n := settleCensus(base) - base; n != 0 {
+					fail("loop-alive-after-failed-keepalive", map[string]interface{}{"loops": n})
+					return
+				}
+				trace = append(trace, "keep-alive fails (outcome not collected)")
+				running = false
+				failUpdateAtV.Store(0)
+				time.Sleep(2 * time.Millisecond)
+				continue
+			}
 			for len(pending) > 0 {
 				line, ok := collect("keep-alive fails")
 				trace = append(trace, line)
@@ -211,6 +223,96 @@ func c20Sequence(ev *vlib.Evidence, idx int) {
 	if idx < 2 {
 		ev.Sample(map[string]interface{}{"trace": trace})
 	}
+}
+
+// c20Uncollected: outcomes nobody collected must not keep the agent from being
+// started again: Start, Stop (no Wait), Start, a keep-alive fails (no Wait),
+// Start again, Stop; then the three outcomes are collected in order.
+func c20Uncollected(ev *vlib.Evidence, idx int) {
+	c20Mu.Lock()
+	defer c20Mu.Unlock()
+	node := &vlib.FakeEth{ID: vlib.NewIdentity("c20self", 0).NodeID, NodeKind: ethnode.Geth, Full: idx%2 == 0}
+	sp := &scriptedPool{}
+	var failAt atomic.Int64
+	sp.nextUpdate = func(n int, req pool.UpdateRequest) (*pool.UpdateResponse, error) {
+		if f := int(failAt.Load()); f > 0 && n >= f {
+			return nil, errors.New("scripted keep-alive failure")
+		}
+		return &pool.UpdateResponse{}, nil
+	}
+	a := &agent.Agent{EthNode: node, UpdateInterval: time.Duration(5+idx%10) * time.Millisecond}
+	base := loopCensus()
+	trace := []string{}
+	fail := func(key string) {
+		ev.Violate("uncollected:"+key, map[string]interface{}{"trace": trace, "loops": loopCensus() - base})
+		// best effort clean-up
+		if loopCensus()-base > 0 {
+			go a.Stop()
+			time.Sleep(20 * time.Millisecond)
+		}
+		settleCensus(base)
+	}
+	ev.Case(fmt.Sprintf("uncollected idx=%d", idx), true)
+	ev.Count("uncollected-outcome-scenarios", 1)
+	if err := a.Start(sp); err != nil {
+		fail("first-start-failed")
+		return
+	}
+	settleCensus(base + 1)
+	a.Stop()
+	if settleCensus(base)-base != 0 {
+		fail("loop-alive-after-stop")
+		return
+	}
+	trace = append(trace, "Start; Stop (outcome not collected)")
+	if err := a.Start(sp); err != nil {
+		trace = append(trace, "Start -> "+err.Error())
+		fail("start-after-stop-refused")
+		return
+	}
+	if settleCensus(base+1)-base != 1 { // the loop goroutine has really started
+		fail("loop-count-after-second-start")
+		return
+	}
+	failAt.Store(int64(sp.numUpdates() + 1))
+	if settleCensus(base)-base != 0 {
+		fail("loop-alive-after-failed-keepalive")
+		return
+	}
+	failAt.Store(0)
+	trace = append(trace, "Start; a keep-alive fails, the loop ends (outcome not collected)")
+	time.Sleep(5 * time.Millisecond)
+	if err := a.Start(sp); err != nil {
+		trace = append(trace, "Start -> "+err.Error())
+		fail("start-refused-although-no-loop-is-running")
+		return
+	}
+	if settleCensus(base+1)-base != 1 {
+		fail("loop-count-after-third-start")
+		return
+	}
+	a.Stop()
+	got := []string{}
+	for i := 0; i < 3; i++ {
+		ch := make(chan error, 1)
+		go func() { ch <- a.Wait() }()
+		select {
+		case err := <-ch:
+			if err == nil {
+				got = append(got, "nil")
+			} else {
+				got = append(got, "err")
+			}
+		case <-time.After(10 * time.Second):
+			got = append(got, "timeout")
+		}
+	}
+	trace = append(trace, "Start; Stop; Wait x3 -> "+strings.Join(got, ","))
+	if strings.Join(got, ",") != "nil,err,nil" {
+		fail("outcomes-collected-out-of-order-or-lost")
+		return
+	}
+	settleCensus(base)
 }
 
 // c20ConcurrentStarts: several goroutines call Start at once.
@@ -426,6 +528,9 @@ func TestC20(t *testing.T) {
 	}
 	for i := 0; i < vlib.Scale(30, 500); i++ {
 		c20ConcurrentStarts(ev, i)
+	}
+	for i := 0; i < vlib.Scale(20, 300); i++ {
+		c20Uncollected(ev, i)
 	}
 	for i := 0; i < vlib.Scale(4, 20); i++ {
 		c20Cadence(ev, i)
